@@ -116,7 +116,7 @@ __CPROVER_ensures((__CPROVER_return_value == 0 && __CPROVER_old(SB(s).wire_len) 
 int xcm_tp_socket_finish(struct xcm_socket *s)
 __CPROVER_requires(1)
 __CPROVER_assigns(xv_errno, xv_lower_dead)
-__CPROVER_ensures((__CPROVER_return_value == 0 && !xv_lower_dead && !__CPROVER_old(xv_lower_dead) && xv_errno == __CPROVER_old(xv_errno)) || \
+__CPROVER_ensures((__CPROVER_return_value == 0 && !xv_lower_dead && !__CPROVER_old(xv_lower_dead)) || \
                   (__CPROVER_return_value == -1 && xv_errno > 0 && (xv_errno != EAGAIN ==> xv_lower_dead)))
 __CPROVER_ensures(LOWER_DEAD_MONOTONE)
 ;
